@@ -154,10 +154,16 @@ class TrajectoryConstraintsRemover(engines.engine.Engine, CompilerMixin):
         C = []
         for c in new_problem.trajectory_constraints:
             new_c = expression_quantifier_remover.remove_quantifiers(c, new_problem)
-            if new_c.is_and():
-                C.extend(new_c.args)
-            else:
-                C.append(new_c)
+            for constraint in new_c.args if new_c.is_and() else [new_c]:
+                # a constraint that simplified to a Boolean constant has no temporal
+                # operator left to compile: true is dropped, false makes every plan invalid
+                if constraint.is_bool_constant():
+                    if not constraint.bool_constant_value():
+                        raise UPProblemDefinitionError(
+                            "PROBLEM NOT SOLVABLE: a trajectory constraint is false"
+                        )
+                    continue
+                C.append(constraint)
         # create a list that contains trajectory_constraints
         # trajectory_constraints can contain quantifiers and need to be remove
         relevancy_dict = self._build_relevancy_dict(env, C)
